@@ -349,6 +349,25 @@ def _include_table(f):
         elif isinstance(st, (ast.Assign, ast.AnnAssign)) and st.value is not None and isinstance(st.value, (ast.List, ast.Set, ast.Tuple)) \
                 and "include" in ast.unparse(st.targets[0] if isinstance(st, ast.Assign) else st.target):
             rows += [(ast.unparse(e), terms, st.lineno) for e in st.value.elts]
+        elif isinstance(st, (ast.Assign, ast.AnnAssign)) and isinstance(st.value, ast.Dict) and st.value.keys and \
+                all(isinstance(k_, ast.Constant) and isinstance(k_.value, str) for k_ in st.value.keys):
+            # a `header -> needed?` map that a comprehension filters by its values
+            dname = ast.unparse(st.targets[0] if isinstance(st, ast.Assign) else st.target)
+            uses = [c_ for c_ in ast.walk(f.node) if isinstance(c_, (ast.ListComp, ast.GeneratorExp, ast.SetComp)) and len(c_.generators) == 1 and len(c_.generators[0].ifs) == 1]
+            filtered = False
+            for c_ in uses:
+                g_ = c_.generators[0]
+                it_ = ast.unparse(g_.iter).replace(" ", "")
+                cond_ = ast.unparse(g_.ifs[0]).replace(" ", "")
+                if isinstance(g_.target, ast.Name) and it_ in (dname, f"sorted({dname})", f"{dname}.keys()", f"sorted({dname}.keys())") and cond_ == f"{dname}[{g_.target.id}]":
+                    filtered = True
+                if isinstance(g_.target, ast.Tuple) and len(g_.target.elts) == 2 and it_ in (f"{dname}.items()", f"sorted({dname}.items())") \
+                        and cond_ == ast.unparse(g_.target.elts[1]):
+                    filtered = True
+            if filtered:
+                for k_, v_ in zip(st.value.keys, st.value.values):
+                    extra = [] if (isinstance(v_, ast.Constant) and v_.value is True) else list(pyfront.guard_terms([(pyfront.subst_locals(f.node, v_), True)]))
+                    rows.append((repr(k_.value), terms + [(spelled(e), p) for e, p in extra], st.lineno))
         elif isinstance(st, ast.Return) and st.value is not None:
             for comp in [c for c in ast.walk(pyfront.subst_locals(f.node, st.value)) if isinstance(c, (ast.ListComp, ast.GeneratorExp, ast.SetComp))]:
                 if len(comp.generators) != 1:
@@ -472,7 +491,7 @@ CPP_STD_HEADER = {
 }
 
 
-def rule_cpp_omit_std(ctx, ts, root):
+def rule_cpp_omit_std(ctx, ts, root, px=None):
     R = "R-C06-OMIT-STD-TYPES"
     N = ts.nodes
     base = ts.get("cpp", "base.j2")
@@ -492,6 +511,13 @@ def rule_cpp_omit_std(ctx, ts, root):
                     for c in ast.walk(st.value):
                         if isinstance(c, ast.Constant) and isinstance(c.value, str) and c.value.isidentifier():
                             have.add(c.value)
+    # ... in whatever form the include table is written (appends, literal, filtered (header, condition) rows, header -> needed? map)
+    if px is not None:
+        for hdr_, terms_, _ln in _include_table(px.func("nunavut.lang.cpp", "Language.get_includes")):
+            if not terms_:
+                m_ = re.fullmatch(r"[\"']<?(\w+)>?[\"']", hdr_.strip())
+                if m_:
+                    have.add(m_.group(1))
     orc = j2front.GuardOracle(ts, "cpp")
     uses = {}
     for t in ts.of_lang("cpp", "templates"):
@@ -1155,44 +1181,54 @@ def rule_py_imports(ctx, px):
         raise AnalysisError("anchor missing: nunavut.lang.py.filter_imports")
     tparam = f.node.args.args[1].arg
     src = ast.unparse(f.node)
+    # the work may be split over private module-level helpers (one that picks the attributes, a generator of the dependencies): all of
+    # them are read
+    unit = [f]
+    for g_ in unit:
+        for c_ in ast.walk(g_.node):
+            if isinstance(c_, ast.Call) and isinstance(c_.func, ast.Name) and c_.func.id in m.funcs and c_.func.id.startswith("_") and m.funcs[c_.func.id] not in unit and len(unit) < 6:
+                unit.append(m.funcs[c_.func.id])
     # (a) the attribute list
     svc = None
-    for st, gd in pyfront.walk_guarded(f.node.body):
-        if isinstance(st, ast.Assign) and any(e == f"isinstance({tparam}, pydsdl.ServiceType)" and p for e, p in pyfront.guard_terms(gd)):
-            svc = ast.unparse(st.value).replace(" ", "")
-    if svc is None:
-        # ... or as a conditional expression
-        for n_ in ast.walk(f.node):
-            if isinstance(n_, ast.IfExp) and ast.unparse(n_.test) == f"isinstance({tparam}, pydsdl.ServiceType)":
-                svc = ast.unparse(n_.body).replace(" ", "")
-            elif isinstance(n_, ast.IfExp) and ast.unparse(n_.test) == f"not isinstance({tparam}, pydsdl.ServiceType)":
-                svc = ast.unparse(n_.orelse).replace(" ", "")
+    for g_ in unit:
+        for p_ in [a_.arg for a_ in g_.node.args.args]:
+            for st, gd in pyfront.walk_guarded(g_.node.body):
+                if isinstance(st, (ast.Assign, ast.Return)) and st.value is not None and any(e == f"isinstance({p_}, pydsdl.ServiceType)" and pl for e, pl in pyfront.guard_terms(gd)):
+                    svc = re.sub(rf"\b{re.escape(p_)}\b", tparam, ast.unparse(st.value)).replace(" ", "")
+            if svc is None:
+                # ... or as a conditional expression
+                for n_ in ast.walk(g_.node):
+                    if isinstance(n_, ast.IfExp) and ast.unparse(n_.test) == f"isinstance({p_}, pydsdl.ServiceType)":
+                        svc = re.sub(rf"\b{re.escape(p_)}\b", tparam, ast.unparse(n_.body)).replace(" ", "")
+                    elif isinstance(n_, ast.IfExp) and ast.unparse(n_.test) == f"not isinstance({p_}, pydsdl.ServiceType)":
+                        svc = re.sub(rf"\b{re.escape(p_)}\b", tparam, ast.unparse(n_.orelse)).replace(" ", "")
     ok = svc is not None and f"{tparam}.request_type.attributes" in svc and f"{tparam}.response_type.attributes" in svc and "+" in svc
     ctx.ob(R, m.rel, f"{f.short} :: a service contributes the attributes of its request and of its response", ok, f"{svc}", f.node.lineno)
     # (b) (c) the two extractions
     direct = elems = False
-    helpers = {n.name: n for n in ast.walk(f.node) if isinstance(n, ast.FunctionDef) and n is not f.node}
-    for n in ast.walk(f.node):
-        if isinstance(n, (ast.ListComp, ast.GeneratorExp, ast.SetComp)) and len(n.generators) == 1 and isinstance(n.generators[0].target, ast.Name):
-            v = n.generators[0].target.id
-            elt = ast.unparse(n.elt)
-            conds = " and ".join(ast.unparse(c) for c in n.generators[0].ifs)
-            # a loop over the attributes' data types (`for dt in [x.data_type for x in attributes]`): dt stands for x.data_type
-            src_it = pyfront.subst_locals(f.node, n.generators[0].iter)
-            if isinstance(src_it, (ast.ListComp, ast.GeneratorExp)) and len(src_it.generators) == 1 and isinstance(src_it.generators[0].target, ast.Name) \
-                    and not src_it.generators[0].ifs and ast.unparse(src_it.elt) == f"{src_it.generators[0].target.id}.data_type":
-                elt = re.sub(rf"\b{re.escape(v)}\b", f"{v}.data_type", elt)
-                conds = re.sub(rf"\b{re.escape(v)}\b", f"{v}.data_type", conds)
-            for hn, h in helpers.items():     # a local predicate spelled out
-                if f"{hn}({v}.data_type)" in conds and h.args.args:
-                    hp = h.args.args[0].arg
-                    body = " ".join(ast.unparse(r.value) for r in ast.walk(h) if isinstance(r, ast.Return) and r.value is not None)
-                    conds = conds.replace(f"{hn}({v}.data_type)", "(" + body.replace(hp, f"{v}.data_type") + ")")
-            if elt == f"{v}.data_type" and f"isinstance({v}.data_type, pydsdl.CompositeType)" in conds:
-                direct = True
-            if elt == f"{v}.data_type.element_type" and f"isinstance({v}.data_type, pydsdl.ArrayType)" in conds and \
-                    f"isinstance({v}.data_type.element_type, pydsdl.CompositeType)" in conds:
-                elems = True
+    for g_ in unit:
+        helpers = {n.name: n for n in ast.walk(g_.node) if isinstance(n, ast.FunctionDef) and n is not g_.node}
+        for n in ast.walk(g_.node):
+            if isinstance(n, (ast.ListComp, ast.GeneratorExp, ast.SetComp)) and len(n.generators) == 1 and isinstance(n.generators[0].target, ast.Name):
+                v = n.generators[0].target.id
+                elt = ast.unparse(n.elt)
+                conds = " and ".join(ast.unparse(c) for c in n.generators[0].ifs)
+                # a loop over the attributes' data types (`for dt in [x.data_type for x in attributes]`): dt stands for x.data_type
+                src_it = pyfront.subst_locals(g_.node, n.generators[0].iter)
+                if isinstance(src_it, (ast.ListComp, ast.GeneratorExp)) and len(src_it.generators) == 1 and isinstance(src_it.generators[0].target, ast.Name) \
+                        and not src_it.generators[0].ifs and ast.unparse(src_it.elt) == f"{src_it.generators[0].target.id}.data_type":
+                    elt = re.sub(rf"\b{re.escape(v)}\b", f"{v}.data_type", elt)
+                    conds = re.sub(rf"\b{re.escape(v)}\b", f"{v}.data_type", conds)
+                for hn, h in helpers.items():     # a local predicate spelled out
+                    if f"{hn}({v}.data_type)" in conds and h.args.args:
+                        hp = h.args.args[0].arg
+                        body = " ".join(ast.unparse(r.value) for r in ast.walk(h) if isinstance(r, ast.Return) and r.value is not None)
+                        conds = conds.replace(f"{hn}({v}.data_type)", "(" + body.replace(hp, f"{v}.data_type") + ")")
+                if elt == f"{v}.data_type" and f"isinstance({v}.data_type, pydsdl.CompositeType)" in conds:
+                    direct = True
+                if elt == f"{v}.data_type.element_type" and f"isinstance({v}.data_type, pydsdl.ArrayType)" in conds and \
+                        f"isinstance({v}.data_type.element_type, pydsdl.CompositeType)" in conds:
+                    elems = True
     ctx.ob(R, m.rel, f"{f.short} :: the data type of every composite attribute is a dependency", direct, "", f.node.lineno)
     ctx.ob(R, m.rel, f"{f.short} :: the element type of every array of composites is a dependency", elems,
            "" if elems else "a module that has a field `Foo.1.0[<=N] x` of another namespace refers to `ns.Foo_1_0` without importing `ns`", f.node.lineno)
@@ -1405,7 +1441,7 @@ def run(ctx):
     _lines.rule_comment_eol(ctx, ts, "R-C06-COMMENT-EOL", floor=10)
     rule_std_includes(ctx, px)
     rule_omit_std_types(ctx, ts)
-    rule_cpp_omit_std(ctx, ts, ctx.root)
+    rule_cpp_omit_std(ctx, ts, ctx.root, px)
     rule_unused_param(ctx, ts)
     rule_member_strop(ctx, ts)
     rule_name_agree(ctx, ts)
